@@ -38,6 +38,13 @@ claim("C08", "other",
       "DESIGN.md §3 C08, §2.4 G6")
 
 
+claim("C09", "other",
+      "symbolic partial evaluation of the type-checked HIR over all operand-kind combinations: table symmetry (transpose), mirror-sibling agreement, Kleene truth tables, between/in-range/unary-test pairing",
+      "Static table extraction: eval_ternary_equality, build_eq/nq/lt/gt/le/ge/and/or/between, eval_in_range and the four eval_in_unary_* are folded over every ordered pair (triple) of Value kinds with symbolic payloads; the equality table is compared with its transpose (all 21x21 cells), `!=` with the negation of `=`, `<`/`>` and `<=`/`>=` cell-by-cell with their mirror, and/or with the three-valued truth tables on a 5-symbol alphabet, between with the closed range, open ends with strict primitives. Exhaustive over kinds, which is exactly the finite part of the property; the primitive comparisons on payloads are outside.",
+      "Trusts rustc's HIR and the partial evaluator (engine/hireval.py: unknown conditions fork, loops are summarised by their early returns). Assumes PartialOrd/PartialEq of the payload types are coherent; the value-level laws (exactly one of <,=,> on concrete numbers/strings/dates) are not decided.",
+      "DESIGN.md §3 C09, §2.4 G6")
+
+
 def main():
     checks = []
     for pid in sorted(CLAIMED):
